@@ -70,4 +70,8 @@ def run(chk):
             batcher.containment(chk, P3, "C08.K3")
         except SystemExit as e:
             chk.fail("C08.K3", "emit_batcher without tokio compiles", str(e))
+    if not getattr(chk, "_overlay", None):
+        common.linear_types_rule(chk, P, "C08.R4:halves-are-linear", "the channel halves cannot be copied (dropping one copy would close the channel under the other)",
+                                 {"emit_batcher::Sender": "Drop for Sender closes the channel: the first copy dropped stops the receiver while the others still send",
+                                  "emit_batcher::Receiver": "two receivers would take batches concurrently and both clear is_in_batch"})
     return chk
